@@ -7,9 +7,13 @@ import (
 	"github.com/jsightapi/jsight-schema-core/notations/jschema/ischema/constraint"
 )
 
-func collectUserTypes(node ischema.Node) []string {
+// collectUserTypes lists the user types the node mentions. types are the
+// unnamed types the loader made out of the rule-sets of `or` rules: the names
+// a rule-set mentions are names the schema mentions.
+func collectUserTypes(node ischema.Node, types map[string]ischema.Type) []string {
 	c := &userTypesCollector{
 		alreadyProcessed: map[string]struct{}{},
+		types:            types,
 	}
 	c.collect(node)
 	return c.userTypes
@@ -17,6 +21,7 @@ func collectUserTypes(node ischema.Node) []string {
 
 type userTypesCollector struct {
 	alreadyProcessed map[string]struct{}
+	types            map[string]ischema.Type
 	userTypes        []string
 }
 
@@ -24,10 +29,11 @@ func (c *userTypesCollector) collect(node ischema.Node) {
 	c.collectUserTypesFromTypesListConstraint(node)
 	c.collectUserTypesFromTypeConstraint(node)
 	c.collectUserTypesFromAllOfConstraint(node)
+	c.collectUserTypesFromAdditionalPropertiesOfConstraint(node)
+	c.collectUserTypesFromOrRuleSets(node)
 
 	switch n := node.(type) {
 	case *ischema.ObjectNode:
-		c.collectUserTypesFromAdditionalPropertiesOfConstraint(node)
 		c.collectUserTypesObjectNode(n)
 
 	case *ischema.ArrayNode:
@@ -48,6 +54,28 @@ func (c *userTypesCollector) collect(node ischema.Node) {
 func (c *userTypesCollector) collectUserTypesFromTypesListConstraint(node ischema.Node) {
 	for _, name := range UserTypeNamesFromTypesListConstraint(node) {
 		c.addType(name)
+	}
+}
+
+// collectUserTypesFromOrRuleSets follows the unnamed types made of `or`
+// rule-sets like {type: "@a", nullable: true} or
+// {type: "object", additionalProperties: "@a"}.
+func (c *userTypesCollector) collectUserTypesFromOrRuleSets(node ischema.Node) {
+	list, ok := node.Constraint(constraint.TypesListConstraintType).(*constraint.TypesList)
+	if !ok {
+		return
+	}
+	for _, name := range list.Names() {
+		if name == "" || name[0] != '#' {
+			continue
+		}
+		if _, ok := c.alreadyProcessed[name]; ok {
+			continue
+		}
+		c.alreadyProcessed[name] = struct{}{}
+		if t, ok := c.types[name]; ok && t.Schema != nil && t.Schema.RootNode() != nil {
+			c.collect(t.Schema.RootNode())
+		}
 	}
 }
 
